@@ -199,7 +199,19 @@ func (t *Thread) enabled() bool {
 	case KLock:
 		return t.m.W == 0 && t.m.R == 0
 	case KRLock:
-		return t.m.W == 0
+		if t.m.W != 0 {
+			return false
+		}
+		// sync.RWMutex prefers writers: once a goroutine is inside Lock (here: parked at its Lock point), no new reader
+		// is admitted until that writer has had its turn - which is what makes a second RLock by a goroutine that
+		// already holds one a deadlock as soon as a writer arrives in between. (The order "reader first, then the
+		// writer calls Lock" is the schedule in which the writer is still parked at its previous point.)
+		for i := 0; i < t.x.n; i++ {
+			if o := t.x.threads[i]; o != t && !o.done && o.kind == KLock && o.m == t.m {
+				return false
+			}
+		}
+		return true
 	case KSelect:
 		if t.def {
 			return true
